@@ -16,7 +16,7 @@ from .driver import make_exc
 ASYNC_FLAVOURS = ("agen", "aclass", "aclass_noclose", "aplain", "agenlike", "aeager", "aproxy", "areiter", "alateclose")
 SYNC_FLAVOURS = ("list", "seq", "iter", "tuple", "tuplesub", "reiter", "sgen")
 SRC_FLAVOURS = ASYNC_FLAVOURS + SYNC_FLAVOURS
-FN_FLAVOURS = ("def", "async", "partial", "obj", "objaw", "falsyobj", "eqobj", "unhashobj", "aeqobj", "gencoro")
+FN_FLAVOURS = ("def", "async", "partial", "obj", "objaw", "falsyobj", "eqobj", "unhashobj", "aeqobj", "gencoro", "classaw")
 
 
 class SourceBase:
@@ -43,6 +43,7 @@ class SourceBase:
         self.close_fault = None
         self.close_raised = False
         self.close_ret = spec.get("cret")
+        self.cfault_open = bool(spec.get("cfault_open"))  # a failed teardown leaves the source open and productive
         if spec.get("cfault"):
             self.close_fault = make_exc(spec["cfault"], f"planned-close:{name}")
             ctx.planned[f"{name}.aclose"] = self.close_fault
@@ -225,6 +226,10 @@ class AClassSource(SourceBase):
         self.ctx.ev("close", self.name)
         if first and self.csusp:
             await self.ctx.suspend((self.name, "cleanup"))
+        if self.cfault_open and self.close_fault is not None and not self.close_raised:
+            self.close_raised = True
+            self.ctx.ev("close-fault", self.name)
+            raise self.close_fault
         self.closed = True
         if self.close_fault is None and self.close_ret is not None:
             return self.close_ret  # whatever a source's aclose() returns is nobody's business
@@ -633,6 +638,22 @@ class Fn:
                 return await coro(*args)
 
             return functools.partial(coro2, "extra")
+        if fl == "classaw":
+            outer4 = self
+
+            class AwaitableCall:
+                """the callable is a CLASS: calling it makes an instance, and the instance is the awaitable"""
+
+                __slots__ = ("args",)
+
+                def __init__(self_inner, *args):  # noqa: N805
+                    outer4.invoked += 1
+                    self_inner.args = args
+
+                def __await__(self_inner):  # noqa: N805
+                    return body(*self_inner.args).__await__()
+
+            return AwaitableCall
         if fl == "gencoro":
             import types
 
